@@ -95,3 +95,32 @@ func (c *Chain) BlockWith(v1 []types.Transaction, v2 []types.V2Transaction) (typ
 	x.v1, x.v2 = v1, v2
 	return x.finish("schedule")
 }
+
+// DescribeBlock summarises a block for evidence samples.
+func DescribeBlock(cs consensus.State, b types.Block, kinds []string) map[string]any {
+	d := map[string]any{"child_height": cs.Index.Height + 1, "parent_leaves": cs.Elements.NumLeaves, "kinds": kinds, "id": b.ID().String(), "miner_payouts": len(b.MinerPayouts)}
+	var v1 []map[string]any
+	for _, t := range b.Transactions {
+		v1 = append(v1, map[string]any{"siacoin_inputs": len(t.SiacoinInputs), "siacoin_outputs": len(t.SiacoinOutputs), "siafund_inputs": len(t.SiafundInputs), "contracts": len(t.FileContracts),
+			"revisions": len(t.FileContractRevisions), "storage_proofs": len(t.StorageProofs), "fees": len(t.MinerFees), "arbitrary": len(t.ArbitraryData), "signatures": len(t.Signatures)})
+	}
+	var v2 []map[string]any
+	for _, t := range b.V2Transactions() {
+		m := map[string]any{"siacoin_inputs": len(t.SiacoinInputs), "siacoin_outputs": len(t.SiacoinOutputs), "siafund_inputs": len(t.SiafundInputs), "contracts": len(t.FileContracts),
+			"revisions": len(t.FileContractRevisions), "resolutions": len(t.FileContractResolutions), "attestations": len(t.Attestations), "fee": t.MinerFee.String()}
+		var pol []string
+		for _, in := range t.SiacoinInputs {
+			s := in.SatisfiedPolicy.Policy.String()
+			if len(s) > 60 {
+				s = s[:60] + "…"
+			}
+			pol = append(pol, s)
+		}
+		if len(pol) > 0 {
+			m["input_policies"] = pol
+		}
+		v2 = append(v2, m)
+	}
+	d["v1_transactions"], d["v2_transactions"] = v1, v2
+	return d
+}
